@@ -248,7 +248,9 @@ func H_C11_step_t() { hStep(4, 2, 5, 1, true) }
 // pattern (otherwise every subset of up to 62 keys would be a path of its own):
 // 0 all stay, 1 all move, 2 alternate, 3 the first 32 stay and the rest move.
 // case = lv + nl*(op + 2*(sel + 5*pat)).
-func hStepReal(nl, maxChain int, fills []int, K int) {
+func hStepReal(nl, maxChain int, fills []int, K int) { hStepRealT(nl, maxChain, fills, K, "C01.real") }
+
+func hStepRealT(nl, maxChain int, fills []int, K int, tag string) {
 	c := vCase()
 	lv := stepLevels[c%nl]
 	opc := (c / nl) % 2
@@ -300,20 +302,20 @@ func hStepReal(nl, maxChain int, fills []int, K int) {
 	}
 	vAssume(ok)
 	nbBefore := db.index.numBuckets
-	applyOp(db, r, opc, k, stepVlen, "C01.real")
-	checkReads(db, r, "C01.real")
-	vIndexInvariant(db, r, "C01.real")
-	checkItems(db, r, "C01.real")
+	applyOp(db, r, opc, k, stepVlen, tag)
+	checkReads(db, r, tag)
+	vIndexInvariant(db, r, tag)
+	checkItems(db, r, tag)
 	if db.index.numBuckets > nbBefore {
-		vCover("C01.real.split")
+		vCover(tag + ".split")
 		if db.index.overflow.size > int64(headerSize)+int64(bucketSize)*int64(maxChain-1) {
-			vCover("C01.real.split-rebuilt-a-chain-with-overflow")
+			vCover(tag + ".split-rebuilt-a-chain-with-overflow")
 		}
 	}
 	if stored >= 31 {
-		vCover("C01.real.full-bucket")
+		vCover(tag + ".full-bucket")
 	}
-	vCover("C01.real.done")
+	vCover(tag + ".done")
 }
 
 // one main bucket (level 0), chains of <= 2 buckets
@@ -321,3 +323,9 @@ func H_C01_step_real() { hStepReal(1, 2, []int{0, 1, 30, 31}, 64) }
 
 // quick: buckets with 1 or 31 slots, <= 33 keys (31+1, 1+31, 31, 1+1, 1)
 func H_C01_step_real_q() { hStepReal(1, 2, []int{1, 31}, 33) }
+
+// C11 (slotsPerBucket scaled to 2): one main bucket whose chain of <= 3 buckets
+// holds <= 6 keys in every fill pattern; a Put of an absent key splits it with
+// all / none / alternate keys staying, so that a chain of up to 3 buckets (two
+// earlier buckets in the slot writer) is rebuilt; then a full scan.
+func H_C11_step_chain() { hStepRealT(1, 3, []int{0, 1, 2}, 6, "C11.chain") }
